@@ -67,7 +67,6 @@ IsMq(a)      == a.t \in {"tcp", "ipc"}            \* is_mq_addr
 PortOf(a)    == IF a.p = 0 THEN 5550 ELSE a.p     \* (... + [5550])[:2]
 Wild(h)      == h \in {"*", "0", "0.0.0.0", ""}   \* addr[:1] in "*0"
 Max(S)       == CHOOSE x \in S : \A y \in S : y <= x
-SeqSet(s)    == {s[m] : m \in DOMAIN s}
 
 Opt(f, v) == [f |-> f, v |-> v]    \* what the user wrote for --sources / --outputs: form and items
 
@@ -116,7 +115,7 @@ FilterOptsOf(name, k, n) ==
 FilterOpts(k, n) == UNION {FilterOptsOf(name, k, n) : name \in Names}
 
 (* The quantifier keeps *user-given* endpoints pairwise disjoint (two filters given the same port are the user's
-   conflict, not the CLI's): tcp outputs occupy p and p+1; ipc names are used once. *)
+   conflict, not the CLI's): tcp outputs occupy p and p+1; ipc names are used once.  Lists have at most two items. *)
 UserTcpOuts(cl) == {<<k, m>> \in (1..Len(cl)) \X (1..2) : m <= Len(cl[k].out) /\ cl[k].out[m].t = "tcp"}
 UserIpcOuts(cl) == {<<k, m>> \in (1..Len(cl)) \X (1..2) : m <= Len(cl[k].out) /\ cl[k].out[m].t = "ipc"}
 UserConflictFree(cl) ==
